@@ -125,6 +125,16 @@ def gen(rng, tier):
                     max_arity=rng.randint(2, 5), constants=rng.choice((0.0, 0.0, 0.6)), bbs=nb, unconnected_pins=rng.choice((0.0, 0.3)),
                     input_outputs=0.6 if bare else rng.choice((0.0, 0.25)), name=rng.choice(("top", "m1", "dut_x", "top$1", "t$")),
                     parity_bias=rng.choice((0.0, 0.3)), min_outputs=0 if (nb and rng.random() < 0.15) else 1)
+    if net["bbs"] and rng.random() < 0.35:
+        # cell names as libraries spell them: Verilog is case-sensitive, so BUF, Nand or Module are ordinary module
+        # names, not the primitives / keywords they resemble
+        pool = ["BUF", "Nand", "XOR", "Not", "AND", "Or", "XNOR", "AND2", "BUFX1", "DFFX1", "dff", "Module", "INPUT", "Wire", "Assign",
+                "and_", "nor2", "buf_x", "tie_0", "endmodule_"]
+        tmap = {}
+        for t in sorted({v[0] for v in net["bbs"].values()}):
+            tmap[t] = pool.pop(rng.randrange(len(pool)))
+        for inst, v in net["bbs"].items():
+            v[0] = tmap[v[0]]
     if nb and rng.random() < 0.1:
         # no primary io at all: constants feeding blackboxes only ('module m ();')
         for n, v in net["nodes"].items():
